@@ -4,7 +4,7 @@
 # the 180 tests pass with it, the demo fails with it and passes without it.  Then stores it under
 # /verif/seeded/<Cnn>-<x>/ and runs the named checks against it (tools/try_mutant.sh).
 ID=$1; X=$2; NEEDS=$3; shift 3
-SRC=/tmp/mut/$ID
+SRC=${SEED_SRC:-/tmp/mut}/$ID
 WT=$(mktemp -d /tmp/confirm_wt_XXXXXX)
 git -C /repo worktree add -q --detach $WT HEAD || exit 9
 cleanup() { git -C /repo worktree remove --force $WT 2>/dev/null; rm -rf $WT; }
